@@ -606,6 +606,99 @@ theorem copy_fresh_objects {s : State} (h : Inv s) :
   obtain ⟨h0, h1, h2, _⟩ := h.1
   exact ⟨rfl, rfl, h0, h1, h2, Nat.lt_succ_self _, Nat.lt_succ_self _⟩
 
+/-! ### the sampling interval never becomes zero, so the rate always describes it -/
+theorem collapses_false_ne {dt dd : Int} (h : collapses dt dd = false) (hdt : dt ≠ 0) : dt + dd ≠ 0 := by
+  simp only [collapses, Bool.and_eq_false_iff, bne_eq_false_iff_eq, beq_eq_false_iff_ne] at h
+  rcases h with h | h
+  · subst h; simpa using hdt
+  · exact h
+
+theorem absStep_dt_ne_zero (a : Abs) (op : Op) (h : a.dt ≠ 0) : (absStep a op).dt ≠ 0 := by
+  cases op with
+  | addS v => exact h
+  | subS v => exact h
+  | addR r =>
+    simp only [absStep]
+    split
+    · split_ifs with h1 h2
+      · exact h
+      · have := collapses_false_ne (by simpa using h2) h
+        simpa using this
+      · exact h
+    · exact h
+  | subR r =>
+    simp only [absStep]
+    split
+    · split_ifs with h1 h2
+      · exact h
+      · have := collapses_false_ne (by simpa using h2) h
+        show a.dt - _ ≠ 0
+        intro h0; apply this; omega
+      · exact h
+    · exact h
+  | mul k =>
+    simp only [absStep]
+    split_ifs with hk
+    · exact h
+    · exact Int.mul_ne_zero h hk
+  | div k =>
+    simp only [absStep]
+    split_ifs with hk
+    · exact h
+    · have hk0 : k ≠ 0 := fun e => hk (Or.inl e)
+      have h1 : a.dt % k = 0 := by
+        by_contra hne; exact hk (Or.inr (Or.inr hne))
+      show a.dt / k ≠ 0
+      intro h0
+      obtain ⟨b, hb⟩ := Int.dvd_of_emod_eq_zero h1
+      rw [hb, Int.mul_ediv_cancel_left _ hk0] at h0
+      apply h
+      rw [hb, h0, Int.mul_zero]
+  | slice x y c =>
+    simp only [absStep]
+    split_ifs with hc
+    · exact h
+    · exact Int.mul_ne_zero h hc
+  | copy => exact h
+  | convert u => exact h
+  | setitem => exact h
+
+/-- after any history from an axis with Δ ≠ 0 the interval is still non-zero … -/
+theorem run_interval_nonzero (ops : List Op) : ∀ {s : State}, Inv s → sget s.store s.cur.dt ≠ 0 →
+    sget (run fixed ops s).store (run fixed ops s).cur.dt ≠ 0 := by
+  induction ops with
+  | nil => intro s _ h0; exact h0
+  | cons op rest ih =>
+    intro s h h0
+    apply ih (step_inv h op)
+    have := abs_commutes h op
+    have h1 : (abs (step fixed s op).1).dt ≠ 0 := by
+      rw [this]; exact absStep_dt_ne_zero _ _ h0
+    exact h1
+
+/-- … hence the rate attribute is always the binary64 value the source computes from Δ -/
+theorem run_rate_describes (ops : List Op) {s : State} (h : Inv s) (h0 : sget s.store s.cur.dt ≠ 0) :
+    ∃ u, (run fixed ops s).cur.rate = rateOf u (sget (run fixed ops s).store (run fixed ops s).cur.dt) :=
+  (run_inv ops h).1.2.2.2.2.2 (run_interval_nonzero ops h h0)
+
+/-- a ramp whose step cancels the interval is refused and nothing changes -/
+theorem collapse_rejected (s : State) (r : Ramp) (d : Int)
+    (hr : rampStep (convRamp s.cur.unit r) = .ok d)
+    (hl : (convRamp s.cur.unit r).length = s.cur.samples.length) (hd : d ≠ 0) :
+    (sget s.store s.cur.dt + d = 0 → step fixed s (.addR r) = (s, some .valueError)) ∧
+    (sget s.store s.cur.dt - d = 0 → step fixed s (.subR r) = (s, some .valueError)) := by
+  have hb : ((convRamp s.cur.unit r).length == s.cur.samples.length) = true := by simpa using hl
+  constructor
+  · intro h0
+    have hc : collapses (sget s.store s.cur.dt) (1 * d) = true := by
+      simp [collapses, hd, h0]
+    simp only [step, hr, shiftOp, fixed, Bool.false_eq_true, if_false, hb, if_true, hc]
+  · intro h0
+    have hc : collapses (sget s.store s.cur.dt) (-1 * d) = true := by
+      simp only [collapses, Bool.and_eq_true, bne_iff_ne, beq_iff_eq]
+      constructor <;> omega
+    simp only [step, hr, shiftOp, fixed, Bool.false_eq_true, if_false, hb, if_true, hc]
+
 /-! ### non-vacuity -/
 /-- a concrete history through every kind of operation (ms axis, t0 = 1 ms, Δ = 2 ms, n = 4) -/
 def exampleOps : List Op :=
@@ -660,6 +753,11 @@ theorem current_slice_counterexample :
 theorem current_copy_shares_counterexample :
     let s := (run current [.copy, .addR (.ints [0, 1, 2, 3])] ax0)
     s.kept.map (fun a => (a.samples, sget s.store a.dt)) = [([1, 3, 5, 7], 3)] := by decide
+
+/-- the unrepaired source accepts a ramp that cancels the interval: 4 coinciding samples, Δ = 0 -/
+theorem current_collapse_counterexample :
+    let r := step current ax0 (.subR (.ints [0, -2, -4, -6]))
+    r.2 = some .zeroDivisionError ∧ sget r.1.store r.1.cur.dt = 0 := by decide
 
 /-- a refused `+=` (uniform operand of the wrong length) has already changed the interval -/
 theorem current_failed_op_counterexample :
